@@ -619,6 +619,46 @@ func main() {
 				}
 				return "", ""
 			}
+			// one Reader reused across messages whose sources are of different kinds (byte readers
+			// and plain readers), the hostile payload first, second or both
+			reuseInner := func(p []byte) (sig, detail string) {
+				where := ""
+				defer func() {
+					if r := recover(); r != nil {
+						sig, detail = "panic:wsflate.Reader-reused", fmt.Sprintf("%s: %v", where, r)
+					}
+				}()
+				kinds := []func(b []byte) io.Reader{
+					func(b []byte) io.Reader { return bytes.NewReader(b) },
+					func(b []byte) io.Reader { return env.NewSrc(b) },
+					func(b []byte) io.Reader { return bufio.NewReaderSize(env.NewSrc(b), 16) },
+				}
+				good := deflateSeeds()[0]
+				for ai, ka := range kinds {
+					for bi, kb := range kinds {
+						for oi, order := range [][2][]byte{{p, good}, {good, p}, {p, p}} {
+							where = fmt.Sprintf("source kinds %d then %d, order %d", ai, bi, oi)
+							rr := wsflate.NewReader(ka(order[0]), func(r io.Reader) wsflate.Decompressor { return newFlate(r) })
+							io.Copy(io.Discard, rr)
+							rr.Reset(kb(order[1]))
+							io.Copy(io.Discard, rr)
+							rr.Reset(ka(good))
+							if out, err := io.ReadAll(rr); err != nil || len(out) == 0 {
+								return "valid-message-unreadable-after-hostile-one", fmt.Sprintf("%s: err=%v", where, err)
+							}
+							rr.Close()
+						}
+					}
+				}
+				return "", ""
+			}
+			runReuse := func(p []byte) (sig, detail string) {
+				q := append([]byte{}, p...)
+				if f := explore.Hang("wsflate.Reader-reused", 20*time.Second, func() { sig, detail = reuseInner(q) }); f != nil {
+					return f.Sig, f.Detail + fmt.Sprintf(" (input %x)", q)
+				}
+				return sig, detail
+			}
 			// every case runs under a watchdog: a decoder that spins without consuming input
 			// never comes back, which no post-hoc counter can see
 			run := func(p []byte) (sig, detail string) {
@@ -636,6 +676,9 @@ func main() {
 			t.Par(256, func(b0 int) {
 				t.Do(func() string { return fmt.Sprintf("deflate bytes %02x", b0) }, func() *explore.Fail {
 					if sig, d := run([]byte{byte(b0)}); sig != "" {
+						return explore.Failf(sig, "%s", d)
+					}
+					if sig, d := runReuse([]byte{byte(b0)}); sig != "" {
 						return explore.Failf(sig, "%s", d)
 					}
 					return nil
@@ -668,6 +711,9 @@ func main() {
 				t.Par(len(seed)+1, func(cut int) {
 					t.Do(func() string { return fmt.Sprintf("deflate seed#%d truncate@%d", si, cut) }, func() *explore.Fail {
 						if sig, d := run(seed[:cut]); sig != "" {
+							return explore.Failf(sig, "%s", d)
+						}
+						if sig, d := runReuse(seed[:cut]); sig != "" {
 							return explore.Failf(sig, "%s", d)
 						}
 						return nil
